@@ -193,7 +193,7 @@ class MockCA:
         jws = None
         if method == "POST":
             jws = self.decode_jws(raw, rec)
-        self.ev(**rec)
+        rec = self.ev(**rec)   # the logged object itself: later annotations (sig_ok, ...) land in the log
         if self.o["delay_ms"]:
             time.sleep(self.o["delay_ms"] / 1000.0)
         rule = self.match_rule(kind, nth, gidx)
